@@ -1,5 +1,6 @@
 from runner import Property, Engine
 import opsgen
+import pow2check
 
 # case kinds of the container engine that are integrated (model, proofs, drivers, generator)
 KINDS = [("arr", "Dsa", "DsaModel"), ("llist", "LList", "LListModel"), ("slist", "SList", "SListModel"),
@@ -45,5 +46,6 @@ PROP = Property(
                    "ares_llist_node_detach",  # Dsa/LList_gen_agree.v
                    # growth function, both bit-smearing bodies inlined (Dsa/Pow2_gen_agree.v)
                    "ares_round_up_pow2", "ares_is_64bit"],
+    extra_checks=[pow2check.check],
     rule="random/boundary-directed operation sequences per container; non-trivial = at least two state-changing operations succeeded in the model; distinct by case text",
 )
